@@ -10,12 +10,15 @@ use std::collections::HashSet;
 
 pub struct UnusedVarEliminator {
     stats: OptimizationStats,
+    // session unit: later units can read this unit's top-level variables
+    top_level_open: bool,
 }
 
 impl UnusedVarEliminator {
     pub fn new() -> Self {
         Self {
             stats: OptimizationStats::new(),
+            top_level_open: false,
         }
     }
 }
@@ -34,8 +37,21 @@ impl OptimizationPass for UnusedVarEliminator {
     fn run(&mut self, program: &mut TypedProgram) -> OptimizationStats {
         self.stats = OptimizationStats::new();
         let used_vars = analysis::collect_used_vars(&program.stmts);
-        self.eliminate_unused(&mut program.stmts, &used_vars);
+        if self.top_level_open {
+            // a top-level `let` of a session unit is a global that a later unit may read: "not
+            // used in this unit" does not make it unused. Locals of its functions and blocks
+            // are still eliminated.
+            for stmt in program.stmts.iter_mut() {
+                eliminate::eliminate_unused_in_stmt(stmt, &used_vars, &mut self.stats);
+            }
+        } else {
+            self.eliminate_unused(&mut program.stmts, &used_vars);
+        }
         self.stats.clone()
+    }
+
+    fn set_top_level_open(&mut self, open: bool) {
+        self.top_level_open = open;
     }
 }
 
